@@ -24,18 +24,22 @@ META = dict(
          "key-spelling equality, round-trip equality and independence of the order of calls (two shuffled passes).",
     note="The statement's 'either fails or yields exact values' is read with an acceptance core: a value of the "
          "field's own class that fits the kind and satisfies options=/range= must be accepted (otherwise the "
-         "equality clauses would be vacuous). Both outcomes are allowed for: float-syntax integers into ints "
-         "(1.0, 1e2), numeric strings without `,string`, numbers with `,string`, \"true\" into bool, decimal "
-         "fractions a binary float only approximates, uint64 above 2^63-1, Duration from text sources, absent "
-         "required containers (absent = empty tolerated), any field with env= set (value of the variable, the "
-         "document's value or an error). Only panic-freedom is checked for null and for a bare number into a "
-         "Duration. Not claimed: JSON = YAML for null / empty YAML values (the YAML bridge hands them on as the "
-         "string \"\", inherited behaviour) and for 1e400; Duration and container fields in the httpc->httpx round "
-         "trip (httpc renders them with fmt.Sprint / as nanoseconds, which httpx does not read back); map keys that "
-         "conf's key canonicalisation would rewrite; range bounds beyond 2^31 (float64 comparison in the code); "
-         "optional=dep, embedded optional structs, arrays, TextUnmarshaler fields, multipart forms, conf.Load "
-         "from files / env expansion. int and uint are taken as 64 bit. Trusted: TLC, reflect.StructOf, "
-         "strconv.ParseFloat / math/big as the reference conversion of a decimal text.",
+         "equality clauses would be vacuous). Both outcomes {error, exact value} are allowed for: float-syntax "
+         "integers into ints (1.0, 1e2), numeric strings without `,string`, numbers with `,string`, \"true\" into "
+         "bool, decimal fractions a binary float only approximates (value = correctly rounded float), uint64 above "
+         "2^63-1, Duration from text sources and inside containers, absent required containers (absent = empty "
+         "tolerated), any field with env= set (value of the variable, the document's value or an error). Only "
+         "panic-freedom is checked for null, a bare number or unit-less numeric string into a Duration, a number "
+         "into a string field, 0/1 into a bool. Not claimed: JSON = YAML for null / empty YAML values (the YAML "
+         "bridge hands them on as the string \"\", inherited behaviour) and for 1e400 (a string in YAML); Duration "
+         "and container fields in the httpc->httpx round trip (httpc renders them with fmt.Sprint / as nanoseconds, "
+         "which httpx does not read back); map keys that conf's key canonicalisation would rewrite; range bounds "
+         "beyond small integers (the code compares in float64); optional=dep, embedded optional structs, arrays, "
+         "TextUnmarshaler fields, multipart forms, conf.Load from files / env expansion, native Go values (int, "
+         "float64) inside the map given to UnmarshalKey (json.Number is used, as the JSON layer produces). int and "
+         "uint are taken as 64 bit. The numeric axioms of the specification (order of Points, literal attributes, "
+         "kind bounds) are re-derived by the driver with math/big / strconv on every run (mismatch = exit 2). "
+         "Trusted: TLC, reflect.StructOf, strconv.ParseFloat / math/big as the reference conversion of a decimal text.",
     technique="TLA+ relational spec (Allowed as a set of outcomes) + exhaustive TLC case enumeration replayed on the real functions",
     design="4/C05")
 
@@ -84,8 +88,11 @@ def split_kinds(kinds, n):
 def plans(ctx):
     """-> list of (family label, [jobs])"""
     allk, allo, alll = ALLK, Q(ALLO), "1..%d" % NLITS
-    out = []
-    # single: always the complete catalogue (this run is also the model check of the relation)
+    out = [("axioms", [job("axioms", "axioms", Q(["int8"]), Q(["req"]), "{4}")])]
+    # single: all kinds x all option sets x pointer x both source classes (this run is also the model
+    # check of the relation); quick leaves out the mid-range boundary literals, thorough offers all 60
+    if ctx.quick:
+        alll = S(sorted(set(range(1, NLITS + 1)) - {3, 5, 6, 15, 16, 17, 18, 19, 21, 22, 24, 25, 26, 27, 31, 32, 36, 41, 42, 45, 48, 50, 54, 57}))
     out.append(("single", [job("single-%d" % i, "single", Q(g), allo, alll) for i, g in enumerate(split_kinds(allk, 5))]))
     if ctx.quick:
         k1 = ["int8", "uint8", "int64", "float32", "string", "duration"]
@@ -172,13 +179,20 @@ def run(ctx):
         path, n = ctx.write_cases(fam + ".ndjson", cases)
         total[fam] = n
         ctx.samples += core.sample_of(cases, 1)
-        cnt, bad = ctx.replay(PKG, OVERLAY, RUN, path, label=fam, shards=(4 if fam == "roundtrip" else 8), binp=binp, timeout=1200)
+        shards = 1 if fam == "axioms" else 4 if fam == "roundtrip" else 8
+        cnt, bad = ctx.replay(PKG, OVERLAY, RUN, path, label=fam, shards=shards, binp=binp, timeout=1200)
         # vacuity guard of the driver: each family must have seen accepted and rejected documents
         vals = sum(v for k, v in cnt.items() if k.startswith("call.") and k.endswith(".val"))
         errs = sum(v for k, v in cnt.items() if k.startswith("call.") and k.endswith(".err"))
-        if vals == 0 or (errs == 0 and fam != "roundtrip"):
+        if fam == "axioms":
+            if cnt.get("axioms.checked", 0) < 1:
+                raise core.Infra("the specification's numeric axioms were not checked")
+            continue
+        if not bad and (vals == 0 or (errs == 0 and fam != "roundtrip")):
             raise core.Infra("family %s: vacuous replay (accepted=%d rejected=%d)" % (fam, vals, errs))
     ctx.notes["cases_per_family"] = total
+    # report the simplest member of each class of disagreement first (finish() shows the first per key)
+    ctx.disagreements.sort(key=lambda d: (d["key"], len(d["msg"] or "")))
     ctx.assumptions += ["int and uint are 64 bit", "process environment: VERIF_C05_ENV_5=5, VERIF_C05_ENV_300=300 set by the driver",
                         "loopback HTTP for the round-trip family"]
 
